@@ -52,7 +52,21 @@ def pretty(c, name_options):
     raise AssertionError(f"none of {name_options} in {list(s)}")
 
 
-wrap = st.fixed_dictionaries({"terminator": st.booleans(), "pad": st.sampled_from([0, 0, 16, 256]), "before": st.booleans(), "after": st.booleans()})
+# "stale": bytes that follow the terminator (and padding) inside the field, e.g. the remains of a longer program that was
+# overwritten in place - a terminated program ends at its terminator
+wrap = st.fixed_dictionaries(
+    {
+        "terminator": st.booleans(),
+        "pad": st.sampled_from([0, 0, 16, 256]),
+        "before": st.booleans(),
+        "after": st.booleans(),
+        "stale": st.one_of(st.just(b""), st.just(b""), st.binary(min_size=4, max_size=20), st.sampled_from([b"\x00\x00\x00\x03\x00\x00\x00\x08\x00\x00\x00\x02\x00\x00\x00\x07", b"\x00\x00\x00\x01\x00\x00\x00\x04AAAA", b"\x01\x03\x08"])),
+    }
+)
+
+
+def stale_of(w):
+    return bytes(w.get("stale") or b"")
 
 
 def surround(case, settings):
@@ -79,8 +93,8 @@ def transform_execute(case, stats):
     build0 = "metadata" if case["setting"] == 12 else "id"
     w = case["wrap"]
     # without an explicit terminator the program must end with the value (zero padding doubles as terminator)
-    raw = P.enc_transform(steps, build0=build0, terminator=w["terminator"] or w["pad"] > 0, pad_to=None)
-    raw += b"\x00" * w["pad"]
+    raw = P.enc_transform(steps, build0=build0, terminator=w["terminator"] or w["pad"] > 0 or bool(stale_of(w)), pad_to=None)
+    raw += b"\x00" * w["pad"] + stale_of(w)
     c = cfg(surround(case, [(case["setting"], PTR, raw)]))
     got = pretty(c, ["SETTING_C2_REQUEST" if case["setting"] == 12 else "SETTING_C2_POSTREQ"])
     want = [(n, a) for n, a in steps]
@@ -103,7 +117,7 @@ def recover_strategy():
 def recover_execute(case, stats):
     steps = [tuple(s) for s in case["steps"]]
     w = case["wrap"]
-    raw = P.enc_recover(steps, terminator=w["terminator"] or w["pad"] > 0) + b"\x00" * w["pad"]
+    raw = P.enc_recover(steps, terminator=w["terminator"] or w["pad"] > 0 or bool(stale_of(w))) + b"\x00" * w["pad"] + stale_of(w)
     c = cfg(surround(case, [(11, PTR, raw)]))
     got = pretty(c, ["SETTING_C2_RECOVER"])
     eq([tuple(x) for x in got], steps, "recover:steps", "decoded recover program")
@@ -117,7 +131,7 @@ def execute_strategy():
 
 def execute_execute(case, stats):
     entries = [tuple(e) if isinstance(e, (list, tuple)) else e for e in case["entries"]]
-    raw = P.enc_execute(entries, name_pad=case["name_pad"]) + b"\x00" * case["wrap"]["pad"]
+    raw = P.enc_execute(entries, name_pad=case["name_pad"]) + b"\x00" * case["wrap"]["pad"] + stale_of(case["wrap"])
     c = cfg(surround(case, [(51, PTR, raw)]))
     got = pretty(c, ["SETTING_PROCINJ_EXECUTE"])
     want = []
